@@ -22,7 +22,7 @@ func (BoolCodec) append(data []byte, ptr unsafe.Pointer) []byte {
 // Read decodes a bool
 func (BoolCodec) Read(data []byte, ptr unsafe.Pointer, wt plenccore.WireType) (n int, err error) {
 	uv, n := plenccore.ReadVarUint(data)
-	if n < 0 {
+	if n < 0 || (n == 0 && len(data) != 0) {
 		return 0, fmt.Errorf("corrupt var int")
 	}
 	*(*bool)(ptr) = (uv != 0)
